@@ -36,6 +36,14 @@ class Validator:
     def reset(self):
         self.n = 0
 
+    # a callable OBJECT that is falsy: whether an item validator was given is an `is None` question,
+    # never a truth test (a rule-set object with __len__ == 0 is a legitimate validator)
+    def __len__(self):
+        return 0
+
+    def __bool__(self):
+        return False
+
     def __call__(self, x):
         n = self.n
         self.n += 1
